@@ -190,6 +190,26 @@ func c17(c *ctx) {
 		})
 	}
 	form = 0
+	// an offer that equals the server's configuration to the letter (the negotiator could be tempted to
+	// hand the incoming option back), with and without further parameters
+	for pi, prm := range []wsflate.Parameters{wsflate.DefaultParameters, {ServerMaxWindowBits: 10, ClientMaxWindowBits: 12}, {ClientNoContextTakeover: true, ServerMaxWindowBits: 15}} {
+		prm := prm
+		trace(fmt.Sprintf("srv/NegotiateExact/%d", pi), func(r int) []result {
+			tag := string(rune('a' + r%26))
+			o := prm.Option()
+			var ob bytes.Buffer
+			httphead.WriteOptions(&ob, []httphead.Option{o})
+			req := "GET /x HTTP/1.1\r\nHost: h\r\nUpgrade: websocket\r\nConnection: Upgrade\r\nSec-WebSocket-Version: 13\r\nSec-WebSocket-Key: dGhlIHNhbXBsZSBub25jZQ==\r\n" +
+				"X-Pre: " + strings.Repeat(tag, r*3) + "\r\nSec-WebSocket-Extensions: " + ob.String() + "\r\nX-Pad: " + strings.Repeat(tag, 100) + "\r\n\r\n"
+			e := &wsflate.Extension{Parameters: prm}
+			u := ws.Upgrader{Negotiate: e.Negotiate}
+			hs, err := u.Upgrade(&rwBuf{r: strings.NewReader(req)})
+			if err != nil || len(hs.Extensions) != 1 {
+				vh.Fatal("c17 exact offer %d: %v %d", pi, err, len(hs.Extensions))
+			}
+			return hsResults(&hs)
+		})
+	}
 	httpUp := func(mk func() ws.HTTPUpgrader) func(int) []result {
 		return func(r int) []result {
 			req, err := http.ReadRequest(bufioNewReader(bytes.NewReader(mkReq(r))))
